@@ -11,8 +11,10 @@ EXTENDS Dag, Json
 
 CONSTANT TraceFile
 
-VARIABLE l
-tvars == <<vars, l>>
+VARIABLE l,
+         late   \* scheduler iterations of the default branch (launch / idle ticks) logged since the context ended
+                \* without the end being observed
+tvars == <<vars, l, late>>
 
 Trace == ndJsonDeserialize(TraceFile)
 Ev == Trace[l]
@@ -104,7 +106,7 @@ TReturned ==
   /\ result = "errors" => ToSet(Ev.tags) = errs /\ Len(Ev.tags) = Cardinality(errs)
   /\ UNCHANGED vars
 
-TraceInit == l = 1 /\ EmptyGraph /\ RunInit /\ limit = 1 /\ serial = FALSE /\ buffered = FALSE /\ phase = "build"
+TraceInit == l = 1 /\ late = 0 /\ EmptyGraph /\ RunInit /\ limit = 1 /\ serial = FALSE /\ buffered = FALSE /\ phase = "build"
 
 TraceNext ==
   /\ \/ TConfig \/ TAdd \/ TDep \/ TRetries \/ TDefErr \/ TSort \/ TRun
@@ -112,6 +114,16 @@ TraceNext ==
      \/ TLaunch \/ TRecv \/ TIdle \/ TObserved \/ TAllDone
      \/ TAcquiring \/ TLocking \/ TAcquired \/ TLocked \/ TEnter \/ TFrag \/ TExit \/ TWrite \/ TWriteFail \/ TFlush \/ TSending \/ TUnlock \/ TRelease
      \/ TCancel \/ TEnvLock \/ TEnvUnlock \/ TReturned
+  \* Every iteration of the scheduler's default branch looks at the context before it idles or launches. The
+  \* controller logs `cancel`, ends the context and only then releases anybody: the scheduler can have been past that
+  \* look in the iteration it was in, not in the next one (C14: once the end of the context has been observed ... -
+  \* it has to be observed).
+  /\ LET ev == Trace[l].ev
+         cost == IF ev = "idle" THEN Trace[l].n ELSE IF ev = "launch" THEN 1 ELSE 0
+         unseen == cancelled /\ ~handled /\ phase = "run"
+     IN /\ (unseen /\ cost > 0) => late + cost <= 1
+        /\ late' = IF ev \in {"cancel", "config", "run", "continue"} THEN 0
+                   ELSE IF unseen THEN late + cost ELSE late
   /\ TLCSet(1, l)   \* high-water mark of consumed lines
 
 TraceSpec == TraceInit /\ [][TraceNext]_tvars
